@@ -94,12 +94,12 @@ PROPS = {
         level_text='Theorems C08_*: for every byte string, escaped text content has no < or > and decodes back; escaped attribute values have no double quote; accepted comment text has none of the four closing shapes; '
                    'rejected setters leave the token unchanged. Partial: re-tokenisation of the output and the cross-encoding clause (encoding_rs external) are not proved; validators are compared with the implementation on biased strings.',
         level_note='Trusted as C07.'),
-    'C16': dict(coq=['props/C16.vo'], families=[('l2edit', 800, 20000), ('l2match', 800, 20000)], projections=['handlers', 'events'], oracle=oracle_c16,
+    'C16': dict(coq=['props/C16.vo'], families=[('l2edit', 800, 20000), ('l2match', 800, 20000), ('enc', 400, 8000)], projections=['handlers', 'events'], oracle=oracle_c16,
         technique=LAWS,
         level_text='Theorems C16_*: get_attribute returns the value of the first attribute whose name matches ASCII case-insensitively and None iff there is none (every attribute list, duplicates included); set_attribute rewrites that first match in place or appends, keeps order and the other attributes; remove_attribute deletes every match and keeps the order; invalid names are refused and change nothing; get(set n v) n = v; get after remove = None. Partial: agreement of the attribute outline with the '
                    'WHATWG attribute grammar for every chunking is decided by correspondence (all getters, before and after edits) and an independent reference attribute parser (oracle_c16).',
         level_note='Trusted as C07.'),
-    'C01': dict(coq=['props/C01.vo'], families=[('l1', 1200, 30000), ('l2match', 600, 15000), ('grp-l1', 400, 8000), ('utf8', 400, 8000), ('enc', 400, 8000)], projections=['out_bytes'], oracle=oracle_c01,
+    'C01': dict(coq=['props/C01.vo'], families=[('l1', 1200, 30000), ('l2match', 600, 15000), ('grp-l1', 400, 8000), ('utf8', 400, 8000), ('utf8m', 400, 8000), ('enc', 400, 8000)], projections=['out_bytes'], oracle=oracle_c01,
         technique=TILING,
         level_text='Theorem C01_pass_through: for EVERY observer transform controller (arbitrary capture-flag policy at every tag = every set of observing handlers and every '
                    'lexer/scanner switching pattern), configuration (strict or not, any limits), byte string and split into writes: if all calls succeed, sink bytes = bytes written; '
